@@ -29,6 +29,10 @@ fn slots16() -> Vec<Slot> {
     for i in 0..8 {
         v.push(Slot::numeric(100 + i * 7));
     }
+    // the user spells exactly the fresh slot that would be handed out next (fill-ins of compose_fresh must avoid it)
+    if let Some(k) = v[15].to_string().strip_prefix("$f").and_then(|k| k.parse::<u32>().ok()) {
+        v.push(Slot::named(&format!("f{}", k + 1)));
+    }
     v
 }
 
@@ -152,6 +156,9 @@ fn unary_laws(m: &SlotMap, r: &Ref, universe: &[Slot]) -> Result<(), String> {
     agree(&idk, &rid, universe).map_err(|e| format!("identity: {e}"))?;
     // compose_fresh with the empty map: keeps keys, all values pairwise distinct fresh slots
     let marker = Slot::fresh();
+    if universe.contains(&marker) {
+        return Err(format!("the source of fill-in slots (Slot::fresh) returned {:?}, a slot the maps already mention: a fill-in taken from it is not fresh", marker));
+    }
     let cf = m.compose_fresh(&SlotMap::new());
     if cf.keys() != m.keys() {
         return Err("compose_fresh changes keys".into());
@@ -476,7 +483,7 @@ pub fn property(tier: Tier) -> Property {
         run: run_long,
         panic_is_violation: true,
         render: |c: &LongSeq| format!("{:?}", c.ops),
-        rule: "random sequences of up to 80 insert/remove/values_mut/swap operations on two maps over 24 slots (numeric, named, f<n>-named, fresh); non-trivial = a map grew beyond the inline capacity of 10; distinct by sequence",
+        rule: "random sequences of up to 80 insert/remove/values_mut/swap operations on two maps over 25 slots (numeric, named, f<n>-named, fresh, and the name of the very next fresh slot); non-trivial = a map grew beyond the inline capacity of 10; distinct by sequence",
         case_timeout_s: 60,
         exhaustive: false,
     }));
